@@ -6,32 +6,24 @@ Open Scope Z_scope.
 
 Example C05_nonvacuous :
   let l := [104; 101; 108; 108; 111] in
-  zlen l <= MAX64 /\ in_i64 (-2) /\ opt_in_i64 (Some (-1)) /\ slice_fits (zlen l) (Some (-1)) None (-2) /\
+  zlen l <= MAX64 /\ in_i64 (-2) /\ opt_in_i64 (Some (-1)) /\
   list_slice 6 Trap l (Some (-1)) None (Some (-2)) = OVal [111; 108; 104] /\
   py_slice l (Some (-1)) None (-2) = [111; 108; 104] /\
-  range_no_ovf 5 0 (-2) /\ range 10 Wrap 5 0 (-2) = OVal ([5; 3; 1], true).
+  range 10 Wrap 5 0 (-2) = OVal ([5; 3; 1], true).
 Proof.
   cbv zeta. repeat split; try (unfold in_i64, MIN64, MAX64; cbn; lia); try (vm_compute; reflexivity);
-  try (unfold slice_fits; intros; lia); try (vm_compute; intros; discriminate).
-  all: try (left; vm_compute; intros; discriminate).
-  all: try (vm_compute; intuition (try discriminate)).
+  try (vm_compute; intros; discriminate).
 Qed.
 
 (* P1  s[start:end:step] = Python's slice, for every list/string, every optional i64 start/end,
-       every non-zero i64 step, in debug and release builds, with fuel length+1 (so the loop
-       terminates); on the complement of known finding slice-step-overflow ([slice_fits]) *)
+       every non-zero i64 step (huge steps included: the loop stops when the index would leave
+       i64), in debug and release builds, with fuel length+1 (so the loop terminates) *)
 Theorem C05_slice_spec : forall (A : Type) m (l : list A) s e k,
   zlen l <= MAX64 -> in_i64 k -> opt_in_i64 s -> opt_in_i64 e -> k <> 0 ->
-  slice_fits (zlen l) s e k ->
   list_slice (S (length l)) m l s e (Some k) = OVal (py_slice l s e k) /\
   str_slice (S (length l)) m l s e (Some k) = OVal (py_slice l s e k).
-Proof. intros; split; [exact (list_slice_spec m l s e k H H0 H1 H2 H3 H4) | exact (str_slice_spec m l s e k H H0 H1 H2 H3 H4)]. Qed.
+Proof. intros; split; [exact (list_slice_spec m l s e k H H0 H1 H2 H3) | exact (str_slice_spec m l s e k H H0 H1 H2 H3)]. Qed.
 Print Assumptions C05_slice_spec.
-
-(* P1'  [slice_fits] holds whenever length + |step| fits in i64 (so for every realistic call) *)
-Theorem C05_slice_fits_small : forall n s e k, 0 <= n -> k <> 0 -> n + Z.abs k <= MAX64 -> slice_fits n s e k.
-Proof. exact slice_fits_small. Qed.
-Print Assumptions C05_slice_fits_small.
 
 (* P2  absent step = 1; zero step = the documented ValueError, whatever the other arguments *)
 Theorem C05_slice_step_cases : forall (A : Type) fuel m (l : list A) s e,
@@ -44,19 +36,15 @@ Proof.
 Qed.
 Print Assumptions C05_slice_step_cases.
 
-(* P3  known finding slice-step-overflow is real in the model: "hello"[2::MAX] is "lh" in a
-       release build and an overflow panic in a debug build (Python: "l") *)
-Theorem C05_slice_overflow_refuted :
+(* P3  regression witness of the repaired finding slice-step-overflow: "hello"[2::MAX] is "l"
+       in both builds, as in Python *)
+Theorem C05_slice_overflow_fixed :
   let l := [104; 101; 108; 108; 111] in
-  ~ slice_fits (zlen l) (Some 2) None MAX64 /\
-  list_slice 6 Wrap l (Some 2) None (Some MAX64) = OVal [108; 104] /\
-  str_slice 6 Trap l (Some 2) None (Some MAX64) = OPanic Overflow /\
+  list_slice 6 Wrap l (Some 2) None (Some MAX64) = OVal [108] /\
+  str_slice 6 Trap l (Some 2) None (Some MAX64) = OVal [108] /\
   py_slice l (Some 2) None MAX64 = [108].
-Proof.
-  cbv zeta. split; [|vm_compute; repeat split; reflexivity].
-  unfold slice_fits. intros H. vm_compute in H. apply H; reflexivity.
-Qed.
-Print Assumptions C05_slice_overflow_refuted.
+Proof. cbv zeta. vm_compute. repeat split; reflexivity. Qed.
+Print Assumptions C05_slice_overflow_fixed.
 
 (* P4  s[i]: Python's element for every i64 index (negative included), IndexError otherwise,
        and nothing else *)
@@ -67,14 +55,14 @@ Theorem C05_index_spec : forall (A : Type) m (l : list A) i,
 Proof. intros; split; [exact (list_get_spec m l i H H0) | exact (str_char_at_spec m l i H H0)]. Qed.
 Print Assumptions C05_index_spec.
 
-(* P5  range(a, b, c) yields exactly Python's range (first n values and exhaustion flag for
-       every n; closed form for the k-th value), on the complement of known finding range-overflow *)
-Theorem C05_range_spec : forall n m a b c, c <> 0 -> range_no_ovf a b c ->
+(* P5  range(a, b, c) yields exactly Python's range for ALL i64 triples with c <> 0 (first n
+       values and exhaustion flag for every n; closed form for the k-th value) *)
+Theorem C05_range_spec : forall n m a b c, c <> 0 -> in_i64 a -> in_i64 b -> in_i64 c ->
   range n m a b c = OVal (firstn n (py_range_list a b c), Nat.leb (length (py_range_list a b c)) n).
 Proof. exact range_spec. Qed.
 Print Assumptions C05_range_spec.
 
-Theorem C05_range_nth : forall (k : nat) n m a b c, c <> 0 -> range_no_ovf a b c -> (k < n)%nat ->
+Theorem C05_range_nth : forall (k : nat) n m a b c, c <> 0 -> in_i64 a -> in_i64 b -> in_i64 c -> (k < n)%nat ->
   exists l fin, range n m a b c = OVal (l, fin) /\
     nth_error l k = if Z.of_nat k <? py_range_len a b c then Some (a + Z.of_nat k * c) else None.
 Proof. exact range_nth. Qed.
@@ -84,16 +72,12 @@ Theorem C05_range_zero_step : forall n m a b, range n m a b 0 = ORangeZero.
 Proof. exact range_zero_step. Qed.
 Print Assumptions C05_range_zero_step.
 
-(* P6  known finding range-overflow: range(MAX-1, MAX, 2) keeps yielding from MIN in release *)
-Theorem C05_range_overflow_refuted :
-  ~ range_no_ovf (MAX64 - 1) MAX64 2 /\
-  range 3 Wrap (MAX64 - 1) MAX64 2 = OVal ([MAX64 - 1; MIN64; MIN64 + 2], false) /\
+(* P6  regression witness of the repaired finding range-overflow *)
+Theorem C05_range_overflow_fixed :
+  range 3 Wrap (MAX64 - 1) MAX64 2 = OVal ([MAX64 - 1], true) /\
   py_range_list (MAX64 - 1) MAX64 2 = [MAX64 - 1].
-Proof.
-  split; [|vm_compute; split; reflexivity].
-  intros (_ & _ & _ & Hp & _). specialize (Hp ltac:(lia)). unfold MAX64 in Hp. lia.
-Qed.
-Print Assumptions C05_range_overflow_refuted.
+Proof. vm_compute. split; reflexivity. Qed.
+Print Assumptions C05_range_overflow_fixed.
 
 (* P7  a missing dict key is the documented KeyError, a present key its value *)
 Theorem C05_dict_get_spec : forall d key,
@@ -101,14 +85,12 @@ Theorem C05_dict_get_spec : forall d key,
 Proof. exact dict_get_spec. Qed.
 Print Assumptions C05_dict_get_spec.
 
-(* P8  the documented slice spellings parse to the slice they denote — on the complement of
-       known finding colon-colon (two adjacent colons are lexed as one `::` token) *)
+(* P8  every documented slice spelling — canonical (`s[::k]`, where the lexer produces one `::`
+       token) and with blanks after the colons — parses to the slice it denotes *)
 Theorem C05_slice_syntax : forall sh, wf sh = true ->
   option_map erase (parse_index (lex (spell true sh))) = Some (erase sh) /\
-  (adjacent_colons sh = false -> option_map erase (parse_index (lex (spell false sh))) = Some (erase sh)) /\
-  (adjacent_colons sh = true -> parse_index (lex (spell false sh)) = None).
+  option_map erase (parse_index (lex (spell false sh))) = Some (erase sh).
 Proof.
-  intros sh H. split; [exact (spaced_spelling_parses sh H)|].
-  split; [exact (canonical_spelling_parses sh H) | exact (colon_colon_refuted sh H)].
+  intros sh H. split; [exact (spaced_spelling_parses sh H) | exact (canonical_spelling_parses sh H)].
 Qed.
 Print Assumptions C05_slice_syntax.
